@@ -233,16 +233,25 @@ def do_op(ctx, op, f, obs):
     import csep.core.catalog_evaluations as ce
     if op == "ITER":
         return ctx.call(lambda: [(c.catalog_id, [e[0] for e in c.catalog.tolist()]) for c in f])
+    def scribbled(get):
+        # the caller owns what a request returns: the answer is read, then the returned array is overwritten in place (a caller sorting or
+        # normalising its result); what the forecast reports on the next request must not depend on that
+        raw = get()
+        val = numpy.array(raw, copy=True)
+        if isinstance(raw, numpy.ndarray) and raw.size and raw.flags.writeable:
+            raw[...] = -7
+            ctx.add("returned_arrays_overwritten_by_the_caller")
+        return val
     if op == "COUNTS":
-        return ctx.call(lambda: numpy.asarray(f.get_event_counts(verbose=False)).tolist())
+        return ctx.call(lambda: scribbled(lambda: f.get_event_counts(verbose=False)).tolist())
     if op == "RATES":
         return ctx.call(f.get_expected_rates)
     if op == "SCOUNTS":
-        return ctx.call(lambda: numpy.asarray(f.spatial_counts()))
+        return ctx.call(lambda: scribbled(f.spatial_counts))
     if op == "SCART":
-        return ctx.call(lambda: numpy.asarray(f.spatial_counts(cartesian=True)))
+        return ctx.call(lambda: scribbled(lambda: f.spatial_counts(cartesian=True)))
     if op == "MCOUNTS":
-        return ctx.call(lambda: numpy.asarray(f.magnitude_counts()))
+        return ctx.call(lambda: scribbled(f.magnitude_counts))
     fn = {"N": ce.number_test, "S": ce.spatial_test, "M": ce.magnitude_test, "PL": ce.pseudolikelihood_test,
           "RM": ce.resampled_magnitude_test, "MLL": ce.MLL_magnitude_test}[op]
     kw = {"verbose": False}
